@@ -126,6 +126,18 @@ class Ctx:
         args = ["go", "build", "-tags", tags, "-o", out]
         if race:
             args.append("-race")
+        if os.path.abspath(REPO) != "/repo":
+            # alternative repository tree (mutation testing in a scratch copy): same module, other replace path
+            md = os.path.join(VERIF, ".work", "gomod")
+            os.makedirs(md, exist_ok=True)
+            tagp = hashlib.sha1(os.path.abspath(REPO).encode()).hexdigest()[:10]
+            mf = os.path.join(md, tagp + ".mod")
+            txt = open(os.path.join(HARNESS, "go.mod")).read().replace("=> /repo", "=> " + os.path.abspath(REPO))
+            open(mf, "w").write(txt)
+            shutil.copy(os.path.join(HARNESS, "go.sum"), os.path.join(md, tagp + ".sum"))
+            args += ["-modfile", mf]
+            out = out + "-" + tagp
+            args[args.index("-o") + 1] = out
         args.append("./cmd/" + cmd)
         p = subprocess.run(args, cwd=HARNESS, env=self.go_env(), capture_output=True, text=True)
         if p.returncode != 0:
@@ -152,7 +164,7 @@ class Ctx:
         return p
 
     # ------------------------------------------------------------------ TLC
-    def tlc(self, module, cfg=None, workers=None, simulate=None, depth=None, timeout=900, heap="8g", env=None,
+    def tlc(self, module, cfg=None, workers=None, simulate=None, depth=None, timeout=900, heap="4g", env=None,
             deadlock=True, dfs=False, coverage=False, name=None, extra=(), count_states=True, cfg_text=None,
             stack="64m"):
         """Run TLC on spec/<module>.tla with spec/<cfg>.cfg (default <module>.cfg) in a scratch copy of spec/."""
@@ -171,7 +183,7 @@ class Ctx:
         java += ["-cp", TLA_CP, "tlc2.TLC"]
         args = ["-metadir", os.path.join(sd, "states"), "-config", cfgfile, "-noGenerateSpecTE"]
         if workers is None:
-            workers = 1 if (simulate or dfs) else min(16, os.cpu_count() or 4)
+            workers = 1 if (simulate or dfs) else min(8, os.cpu_count() or 4)
         args += ["-workers", str(workers)]
         if not deadlock:
             args.append("-deadlock")
@@ -279,11 +291,17 @@ def ensure_gosum():
 
 
 def load_findings():
+    """known_findings.json (generated by bin/mkmanifest) overlaid with findings/CNN.json (its sources)."""
+    import glob
+    out = {}
     p = os.path.join(VERIF, "known_findings.json")
-    if not os.path.exists(p):
-        return []
-    with open(p) as f:
-        return json.load(f).get("findings", [])
+    if os.path.exists(p):
+        for f in json.load(open(p)).get("findings", []):
+            out[f["id"]] = f
+    for q in sorted(glob.glob(os.path.join(VERIF, "findings", "C*.json"))):
+        for f in json.load(open(q)).get("findings", []):
+            out[f["id"]] = f
+    return list(out.values())
 
 
 _re_states = re.compile(r"(\d+) states generated, (\d+) distinct states found")
